@@ -364,8 +364,6 @@ def get_world(case):
 def run_request(w, case):
     env = c03.make_environ(case['req'])
     w.site = case['site']
-    # every case starts from a cold lookup cache (the cache is C15's subject; cases must not depend on earlier ones)
-    w.config.registry._clear_view_lookup_cache()
     w.log.clear()
     w.log.update({'seen': [], 'view_exc': {}})
     sh = {}
@@ -596,21 +594,6 @@ def effective(case):
 
 
 def oracle(w, case, obs):
-    viol, stats = _oracle(w, case, obs)
-    lg = w.log
-    E = lg.get('passing')
-    if viol and not viol.get('finding') and case.get('root_same') and case.get('root') is not None:
-        d = (lg.get('request').__dict__ if lg.get('request') is not None else {})
-        raised = [e for (t, xp), e in lg['view_exc'].items() if not xp]
-        X = E if E is not None else (raised[-1] if raised else None)
-        if X is not None and providedBy(X) is providedBy(w.root) and d.get('matched_route') is None:
-            # F-C14b: the lookup cache key (request_iface, context_iface, view_name) leaves the classifier out; the context resource
-            # provides exactly what the exception provides, so one of the two lookups is answered with the other one's views
-            viol['finding'] = 'F-C14b'
-    return viol, stats
-
-
-def _oracle(w, case, obs):
     """C14's statement.  E = the exception the excview tween caught (the original).
     * the exception views that apply to E: statements whose context is an exception type / interface E is an instance of,
       registered under the view name '' (exception lookup uses no view name), global or bound to the matched route, in
@@ -904,6 +887,8 @@ def gen_app(rng, big=False):
         wtmp.xclasses = make_xclasses(xclasses)
         plain = [k for k, c in enumerate(wtmp.xclasses) if not issubclass(c, webob.Response)]
         root = rng.choice(plain) if plain else None
+        if raised[0] == 'u' and raised[1] in plain and rng.random() < 0.6:
+            root = raised[1]       # the context resource is an instance of (a subclass of) the raised exception's class
     site_at = rng.choice(EARLY_SITES + ['none'] * 5)
 
     def ctx_ref():
@@ -963,7 +948,17 @@ def gen_app(rng, big=False):
         st.update({'route': route, 'opts': o, 'not': notted, 'accept': accept, 'tag': tag})
         stmts.append(st)
     site = {'at': site_at, 'exc': raised, 'prior': rng.random() < 0.3, 'touch': rng.random() < 0.25}
-    return {'xclasses': xclasses, 'root': root, 'routes': routes, 'policy': rng.random() < 0.8, 'defperm': rng.random() < 0.15,
+    root_same = bool(root is not None and rng.random() < 0.6)
+    if root_same and raised == ['u', root] and site_at == 'none' and not_pm(raised) and rng.random() < 0.6:
+        # the shape of the repaired F-C14b: the context resource provides exactly what the raised exception provides, an ordinary
+        # view (for a base class / any context) raises it, an exception view is registered for it
+        t = len(stmts)
+        stmts.append({'kind': 'view', 'ctx': rng.choice([None, ['u', root]] + [a for a in rel if a[0] == 'u'][:1]), 'name': '', 'xonly': False,
+                      'perm': rng.choice([None, 'npr']), 'body': ['raise', raised, rng.choice(['body', 'renderer'])], 'route': None, 'opts': {},
+                      'not': [], 'accept': None, 'tag': t + 1})
+        stmts.append({'kind': 'exc', 'ctx': rng.choice([['u', root], ['u', root], None]), 'name': '', 'body': ['respond'], 'route': None,
+                      'opts': {}, 'not': [], 'accept': None, 'tag': t + 2})
+    return {'xclasses': xclasses, 'root': root, 'root_same': root_same, 'routes': routes, 'policy': rng.random() < 0.8, 'defperm': rng.random() < 0.15,
             'default_excview': rng.random() < 0.85, 'stmts': stmts, 'commit': rng.choice(['auto', 'auto', 'each']), 'site': site}
 
 
@@ -1005,8 +1000,8 @@ def check_case(case):
 def compare_model(case, res, mo):
     if mo is None or res['minfo'] is None:
         return None
-    if res['viol'] and res['viol'].get('finding') in ('F-C14b', 'F-C14c'):
-        return None          # outside the model: the lookup cache (C15) / view bodies raising PredicateMismatch
+    if res['viol'] and res['viol'].get('finding') == 'F-C14c':
+        return None          # outside the model: view bodies raising PredicateMismatch
     obs = res['obs']
     if 'error' in mo:
         return {'case': case, 'impl': obs_public(obs), 'model': mo}
@@ -1073,7 +1068,7 @@ def shrink_case(case, pred):
             c = dict(cur, stmts=cur['stmts'][:i] + [dict(st, accept=None)] + cur['stmts'][i + 1:])
             if ok(c):
                 cur = c
-    for key, val in (('commit', 'auto'), ('defperm', False), ('root', None), ('default_excview', True), ('policy', True)):
+    for key, val in (('commit', 'auto'), ('defperm', False), ('root', None), ('root_same', False), ('default_excview', True), ('policy', True)):
         if cur.get(key) != val:
             c = dict(cur, **{key: val})
             if ok(c):
@@ -1114,8 +1109,9 @@ W_PROTECTED = base_case(stmts=[mk('view', 1, ['u', 0], perm='p')],
                         req=dict(base_case()['req'], permitted=False))
 
 
-# F-C14b: a context resource that is an instance of the raised exception's class: the main lookup caches the ordinary views
-# under (IRequest, implementedBy(X0), ''), the exception lookup for X0() finds that cache entry and calls the ordinary view
+# regression case of F-C14b (fixed by fc67717: the lookup cache key now holds the classifier): a context resource that is an
+# instance of the raised exception's class; before the fix the main lookup cached the ordinary views under
+# (IRequest, implementedBy(X0), '') and the exception lookup for X0() was answered with that entry.  Must PASS now.
 W_CACHE = base_case(xclasses=[{'bases': [['b', 'Exception']]}], root=0, root_same=True,
                     stmts=[mk('view', 1, None, body=['raise', ['u', 0], 'body']), mk('exc', 2, ['u', 0])],
                     site={'at': 'none', 'exc': ['u', 0], 'prior': False, 'touch': False})
@@ -1124,7 +1120,7 @@ W_PM_BODY = base_case(xclasses=[{'bases': [['b', 'PredicateMismatch']]}],
                       stmts=[mk('view', 1, None, opts={'request_method': 'GET'}, body=['raise', ['u', 0], 'body']), mk('view', 2, None),
                              mk('exc', 3, ['u', 0])],
                       site={'at': 'none', 'exc': ['u', 0], 'prior': False, 'touch': False})
-WITNESSES = (('protected-exception-view-refused', 'F-C14a'), ('lookup-cache-ignores-classifier', 'F-C14b'),
+WITNESSES = (('protected-exception-view-refused', 'F-C14a'), ('lookup-cache-holds-classifier (regression of fixed F-C14b)', None),
              ('view-body-raises-PredicateMismatch', 'F-C14c'))
 
 
@@ -1158,7 +1154,7 @@ def run(ctx):
             'winner_route_bound': 0, 'winner_class_rank': {}, 'nearer_view_failed_predicate': 0, 'multi_inheritance_raised': 0,
             'http_exception_raised': 0, 'predicate_mismatch_family_raised': 0, 'prior_attrs': 0, 'touched_response': 0,
             'exception_only_stmts': 0, 'both_classifier_stmts': 0, 'route_requests': 0, 'no_policy': 0, 'default_permission': 0,
-            'no_default_excview': 0, 'root_is_exception_instance': 0, 'incoherent_cases': 0, 'silent_oracle': 0, 'finding_hits': {},
+            'no_default_excview': 0, 'root_is_exception_instance': 0, 'root_exactly_of_raised_class': 0, 'same_spec_main_hit_then_exception_lookup': 0, 'incoherent_cases': 0, 'silent_oracle': 0, 'finding_hits': {},
             'self_response_status': {}, 'commit_mode': {}}
     for case, res, mo in zip(cases, results, model):
         m = compare_model(case, res, mo)
@@ -1219,6 +1215,13 @@ def run(ctx):
                 dist['no_default_excview'] += 1
             if case.get('root') is not None:
                 dist['root_is_exception_instance'] += 1
+                if case.get('root_same') and case['site'].get('exc') == ['u', case['root']]:
+                    dist['root_exactly_of_raised_class'] += 1
+                    if res['minfo'] and case['site'].get('at') == 'none' and obs['caught'] is not None \
+                            and isinstance(obs['caught'], int) and obs['caught'] >= ID_VIEWEXC and res['minfo']['comb'][0] == 0:
+                        # the shape of the repaired F-C14b: an ordinary view found for the resource raised an exception that
+                        # provides exactly what the resource provides, unrouted: both lookups share every cache-key part but the classifier
+                        dist['same_spec_main_hit_then_exception_lookup'] += 1
             if st and st.get('caught'):
                 w = get_world(case)
                 # (re-derive the type of what was caught from the ids)
@@ -1251,6 +1254,10 @@ def run(ctx):
             notes.append('witness %s could not be run: %s: %s' % (name, type(e).__name__, e))
             continue
         notes.append('witness %s: impl=%s finding=%s' % (name, r['obs']['out'], (r['viol'] or {}).get('finding')))
+        if fid is None:
+            if r['viol']:
+                out_viol.append(r['viol'])
+            continue
         if r['viol'] and r['viol'].get('finding') == fid and fid not in known_seen:
             out_viol.append(r['viol'])
             known_seen[fid] = r['viol']
